@@ -116,7 +116,13 @@ fn route_result(kind: &str, code: i32) -> (String, i64) {
                 }
             }
         } else {
-            let b = if kind == "record2" { record2_with(code) } else { record_with(code) };
+            let mut b = if kind == "record2" { record2_with(code) } else { record_with(code) };
+            if kind == "record#0" {
+                b[100..104].copy_from_slice(&0i32.to_be_bytes());       // record number 0 (any number is legal: C03)
+            }
+            if kind == "record#-1" {
+                b[100..104].copy_from_slice(&(-1i32).to_be_bytes());
+            }
             match ShapeReader::new(Cursor::new(b)).and_then(|mut r| r.iter_shapes().next().unwrap()) {
                 Ok(s) => ("ok".to_string(), variant_code(&s) as i64),
                 Err(e) => {
@@ -165,7 +171,7 @@ pub fn run_c19(a: &Args, out: &PathBuf) -> Value {
     }
     interesting.sort();
     interesting.dedup();
-    for kind in ["header", "shxheader", "record", "record2", "typed", "typed2"] {
+    for kind in ["header", "shxheader", "record", "record2", "typed", "typed2", "record#0", "record#-1"] {
         for &v in &interesting {
             let (res, code) = route_result(kind, v);
             tr.emit(json!({"ev": "route", "kind": kind, "value": v, "res": res, "code": code}));
@@ -173,7 +179,7 @@ pub fn run_c19(a: &Args, out: &PathBuf) -> Value {
     }
     // bulk: the routes must agree with ShapeType::from on validity and carry the value
     let mut r = Rng::new(seed ^ 0xc19);
-    for kind in ["header", "shxheader", "record", "record2", "typed", "typed2"] {
+    for kind in ["header", "shxheader", "record", "record2", "typed", "typed2", "record#0", "record#-1"] {
         let mut tested = 0u64;
         let mut bad: Vec<i64> = vec![];
         let mut check = |v: i32, bad: &mut Vec<i64>| {
